@@ -90,6 +90,11 @@ func specFromCase(cs CaseSpec) ScheduleSpec {
 	}
 	sp.CloseLeaves = cs.I("closeleaves", 0) == 1
 	sp.CloseGap = int(cs.I("closegap", 0))
+	if cs.I("trickle", 0) == 1 {
+		// almost every exchange carries only a few events: nodes learn the history in
+		// small, differently ordered pieces
+		sp.TruncProb = 0.9
+	}
 	sp.CloseOnCommit = cs.I("closeoncommit", 0) == 1
 	sp.LagAtSecondChange = cs.I("lagatsecond", 0) == 1
 	sp.FFResets = int(cs.I("ffresets", 0))
@@ -275,7 +280,7 @@ func init() {
 			}
 			for j := 0; j < closeN; j++ {
 				cs = append(cs, CaseSpec{Kind: "history",
-					P: map[string]int64{"n": int64(5 + j%3), "steps": int64(260 + 20*(j%6)), "leaves": 2, "closeleaves": 1, "closeoncommit": 1, "lagatsecond": int64(j % 2), "badger": 0},
+					P: map[string]int64{"n": int64(5 + j%3), "steps": int64(260 + 20*(j%6)), "leaves": 2, "closeleaves": 1, "closeoncommit": 1, "lagatsecond": int64(j % 2), "trickle": int64((j / 2) % 2), "badger": 0},
 					S: map[string]string{"shape": []string{"lag", "partition", "uniform", "split"}[j%4]}})
 			}
 			soaks := 2
